@@ -21,6 +21,8 @@ import (
 	"strings"
 )
 
+var externs []string // @extern module paths
+
 func readFuncs(path string) []*fn {
 	f, err := os.Open(path)
 	if err != nil {
@@ -35,6 +37,21 @@ func readFuncs(path string) []*fn {
 		ln++
 		line := strings.TrimSpace(sc.Text())
 		if line == "" || strings.HasPrefix(line, "#") {
+			continue
+		}
+		if strings.HasPrefix(line, "@extern ") {
+			externs = append(externs, strings.TrimSpace(strings.TrimPrefix(line, "@extern ")))
+			continue
+		}
+		if strings.HasPrefix(line, "@") {
+			if len(l) == 0 {
+				fatalf("%s:%d: directive before the first function", path, ln)
+			}
+			cur := l[len(l)-1]
+			if cur.sp == nil {
+				cur.sp = &spec{}
+			}
+			cur.sp.addDirective(fmt.Sprintf("%s:%d", path, ln), line)
 			continue
 		}
 		p := strings.Fields(line)
@@ -116,6 +133,9 @@ func prepass(ld *loader, f *fn, wl map[types.Object]*fn) {
 	}
 	seenCallee := map[*fn]bool{}
 	ast.Inspect(f.decl.Body, func(n ast.Node) bool {
+		if e, ok := n.(ast.Expr); ok && (f.findBind(e) != nil || f.findOut(e) != nil) {
+			return false // abstracted: nothing inside it is read by the translated function
+		}
 		switch x := n.(type) {
 		case *ast.AssignStmt:
 			for _, l := range x.Lhs {
@@ -130,6 +150,9 @@ func prepass(ld *loader, f *fn, wl map[types.Object]*fn) {
 				}
 			}
 		case *ast.SelectorExpr:
+			if f.findBind(x) != nil || f.findOut(x) != nil {
+				return false
+			}
 			if addField(x, false) {
 				return false
 			}
@@ -181,13 +204,14 @@ func main() {
 	root := flag.String("root", "/repo", "source root (contains memutils/ and vam/)")
 	funcs := flag.String("funcs", "funcs.txt", "whitelist")
 	out := flag.String("o", "GenLeaf.v", "output file")
+	modcache := flag.String("modcache", "", "Go module cache (GOMODCACHE), for the @extern modules")
 	flag.Parse()
 	absRoot, err := filepath.Abs(*root)
 	if err != nil {
 		fatalf("%v", err)
 	}
-	ld := newLoader(absRoot)
 	fns := readFuncs(*funcs)
+	ld := newLoader(absRoot, externs, *modcache)
 	wl := map[types.Object]*fn{}
 	for _, f := range fns {
 		full := filepath.Join(absRoot, filepath.FromSlash(f.file))
@@ -231,7 +255,28 @@ func main() {
 		f.obj = obj
 		wl[obj] = f
 		// any type error inside the function is fatal
+		// ... except inside a call declared @nonnil (error constructors of stubbed packages; such a
+		// call is not translated, only its non-nil-ness is used)
+		type rng struct{ lo, hi token.Pos }
+		var ignore []rng
+		if f.sp != nil {
+			ast.Inspect(f.decl.Body, func(n ast.Node) bool {
+				if ce, ok := n.(*ast.CallExpr); ok && matchAny(f.sp.nonnils, ce.Fun) {
+					ignore = append(ignore, rng{ce.Pos(), ce.End()})
+				}
+				return true
+			})
+		}
 		for _, te := range f.pkg.errs {
+			skip := false
+			for _, r := range ignore {
+				if te.Pos >= r.lo && te.Pos <= r.hi {
+					skip = true
+				}
+			}
+			if skip {
+				continue
+			}
 			if te.Pos >= f.decl.Pos() && te.Pos <= f.decl.End() {
 				fatalf("%s: in %s: Go type error: %s", ld.pos(te.Pos), f.name, te.Msg)
 			}
@@ -286,6 +331,7 @@ func main() {
 		if len(f.fields) != 0 && f.recvObj == nil {
 			fatalf("%s: %s: internal: fields without a named receiver", ld.pos(f.decl.Pos()), f.name)
 		}
+		specPrepass(ld, f, wl)
 		touched[f.file] = "whitelisted"
 		_, saw := translate(ld, f, wl, globalNames, true, map[string]string{})
 		f.mayPanic = saw
@@ -303,7 +349,7 @@ func main() {
 	}
 	sort.Strings(files)
 	for _, k := range files {
-		data, err := os.ReadFile(filepath.Join(absRoot, filepath.FromSlash(k)))
+		data, err := os.ReadFile(ld.absName(k))
 		if err != nil {
 			fatalf("cannot re-read %s: %v", k, err)
 		}
@@ -324,9 +370,12 @@ func main() {
 			recv = "(" + f.recv + ")."
 		}
 		fmt.Fprintf(&b, "     %s <- %s %s%s  fields[%s] assigned[%s]\n", f.coq, f.file, recv, f.name, strings.Join(fl, " "), strings.Join(ml, " "))
+		if !f.sp.empty() {
+			b.WriteString(f.sp.headerLines("         "))
+		}
 	}
 	b.WriteString("*)\n")
-	b.WriteString("From Coq Require Import ZArith Bool.\nFrom Arsenal Require Import GoSem.\nOpen Scope Z_scope.\n")
+	b.WriteString("From Coq Require Import ZArith Bool List.\nFrom Arsenal Require Import GoSem.\nOpen Scope Z_scope.\n")
 	for _, f := range order {
 		b.WriteString("\n")
 		b.WriteString(f.text)
